@@ -219,7 +219,15 @@ fn draw_setup(w: &mut World) -> Setup {
     let napps = 1 + w.draws.draw("setup/napps", p.apps_max.max(1) as u64) as usize;
     let drawn: Vec<(App, Vec<u32>)> = (0..napps).map(|i| draw_app(w, i)).collect();
     let versions: Vec<Vec<u32>> = drawn.iter().map(|d| d.1.clone()).collect();
-    let apps: Vec<App> = drawn.into_iter().map(|d| d.0).collect();
+    let mut apps: Vec<App> = drawn.into_iter().map(|d| d.0).collect();
+    if napps >= 2 && w.draws.chance("setup/dup_app", p.dup_app_permille) {
+        // the same app id listed twice with differing data: requests keep the first insertion
+        w.stat("config.repeated_app_id");
+        let id0 = apps[0].id.clone();
+        let last = napps - 1;
+        apps[last].id = id0;
+        apps[last].cohort.hint = Some("second-insertion-hint".to_string());
+    }
     let system_idx = if w.draws.chance("setup/system_nonzero", p.system_app_nonzero_permille) && napps > 1 {
         1 + w.draws.draw("setup/system_idx", napps as u64 - 1) as usize
     } else {
